@@ -36,6 +36,7 @@ class CallGraph:
         self.prog = prog
         self.types = types
         self._cache: Dict[Tuple[int, Optional[str]], List[Edge]] = {}
+        self._all_cache: Dict[Tuple[int, Optional[str]], List[Edge]] = {}
         self.decorated: Dict[str, List[Func]] = {}
         for f in prog.funcs:
             for d in f.decorators:
@@ -332,6 +333,9 @@ class CallGraph:
         return []
 
     def all_edges(self, f: Func, self_cls: Optional[Class] = None) -> List[Edge]:
+        key = (id(f), self_cls.name if self_cls else None)
+        if key in self._all_cache:
+            return self._all_cache[key]
         out = list(self.edges(f, self_cls))
         for n in own_nodes(f.node):
             if isinstance(n, ast.Call):
@@ -339,7 +343,25 @@ class CallGraph:
                     init = c.lookup_method("__init__")
                     if init is not None:
                         out.append(Edge(f, n, "construct", init, False, c))
+        self._all_cache[key] = out
         return out
+
+    def reaching(self, target: Func, include_weak: bool = False) -> Set[Func]:
+        """All functions from which `target` is reachable (reverse closure), target excluded unless recursive."""
+        rev: Dict[Func, Set[Func]] = {}
+        for g in self.prog.funcs:
+            for e in self.all_edges(g):
+                if isinstance(e.target, Func) and (include_weak or not e.weak):
+                    rev.setdefault(e.target, set()).add(g)
+        seen: Set[Func] = set()
+        work = list(rev.get(target, ()))
+        while work:
+            x = work.pop()
+            if x in seen:
+                continue
+            seen.add(x)
+            work.extend(rev.get(x, ()))
+        return seen
 
     # ------------------------------------------------------------------ closure
     def reach(self, roots: Iterable[Func], include_weak: bool = True, stop=None) -> Set[Func]:
